@@ -14,7 +14,7 @@ UNARY_FAMILY = space.alphabet('NOT', 'IFF', 'LNOT', 'RNOT', 'LIFF', 'RIFF', 'AND
 UNARY4 = space.alphabet('NOT', 'IFF', 'LNOT', 'RIFF', 'AND')
 CHAIN = space.alphabet('NOT', 'LNOT', 'IFF')
 CHAIN1 = space.alphabet('NOT', 'IFF')
-ALPHAS = {'CHAIN1': CHAIN1, 'CHAIN': CHAIN, 'FULL': space.FULL, 'FULL_NO3': space.FULL_NO3, 'UNARY': UNARY_FAMILY, 'UNARY4': UNARY4}
+ALPHAS = {'SU': space.S + space.U, 'CHAIN1': CHAIN1, 'CHAIN': CHAIN, 'FULL': space.FULL, 'FULL_NO3': space.FULL_NO3, 'UNARY': UNARY_FAMILY, 'UNARY4': UNARY4}
 
 
 def singles():
@@ -72,14 +72,107 @@ def core_policies(n, k, gates):
     return list(dict.fromkeys(pol))
 
 
+LONG_PATTERNS = {
+    'not': [('NOT', 'p')],
+    'iff-not-not': [('IFF', 'p'), ('NOT', 'p'), ('NOT', 'p')],
+    'lnot-riff': [('LNOT', 'p', 'x1'), ('RIFF', 'x1', 'p')],
+    'not-and': [('NOT', 'p'), ('AND', 'p', 'x1')],
+    'dup-xor': [('XOR', 'p', 'x1'), ('XOR', 'x1', 'p')],
+}
+
+
+def long_chain(pat, L):
+    """(circuit, net): a chain of L gates over two inputs following LONG_PATTERNS[pat]; outputs: the last
+    gate, the middle gate and x0."""
+    from cirbo.core.circuit import Circuit, gate as G
+
+    c = Circuit()
+    c.add_inputs(['x0', 'x1'])
+    prev = 'x0'
+    steps = LONG_PATTERNS[pat]
+    labs = []
+    for i in range(L):
+        t, *ops = steps[i % len(steps)]
+        ops = tuple(prev if o == 'p' else o for o in ops)
+        lab = f'c{i}'
+        c.emplace_gate(lab, getattr(G, t), ops)
+        labs.append(lab)
+        prev = lab
+    c.set_outputs([labs[-1], labs[L // 2], 'x0'])
+    return c
+
+
+class degenerate_checksums:
+    """E3 deviation: every non-cryptographic checksum the standard library offers (zlib.crc32, zlib.adler32,
+    binascii.crc32, binascii.crc_hqx) answers 0.  Collisions of these checksums exist and are constructible
+    for tables of six or more inputs, so a pass may use them to bucket candidates but never as proof of
+    equality: under this environment a correct pass still preserves the function."""
+
+    def __enter__(self):
+        import binascii
+        import zlib
+
+        self.saved = [(zlib, 'crc32', zlib.crc32), (zlib, 'adler32', zlib.adler32), (binascii, 'crc32', binascii.crc32), (binascii, 'crc_hqx', binascii.crc_hqx)]
+        for mod, name, _ in self.saved:
+            setattr(mod, name, lambda *a, **k: 0)
+        return self
+
+    def __exit__(self, *exc):
+        for mod, name, fn in self.saved:
+            setattr(mod, name, fn)
+        return False
+
+
+def check_long(acc, pat, L):
+    c = long_chain(pat, L)
+    net = refmodel.abstract(c)
+    ref = net.tables()
+    acc.states += 1
+    for tname in SINGLE_NAMES + ('MUO|MDG', 'MDG|MUO'):
+        fn, removes = transformers()[tname]
+        case = {'long_chain': pat, 'length': L, 'transformer': tname}
+        acc.transitions += 1
+        acc.traces += 1
+        try:
+            r = fn(c)
+        except Exception as e:  # noqa: BLE001
+            acc.violation(f'{tname}/raises-{type(e).__name__}', case, repr(e)[:200], {'long': True})
+            continue
+        rnet = refmodel.abstract(r)
+        if refmodel.abstract(c).key() != net.key():
+            acc.violation(f'{tname}/argument-modified', case, '', {'long': True})
+        if len(rnet.outputs) != 3 or (not removes and rnet.inputs != net.inputs):
+            acc.violation(f'{tname}/interface', case, f'{rnet.inputs} {len(rnet.outputs)}', {'long': True})
+            continue
+        iv = refmodel.input_vectors_cached(2)
+        pos = {l: i for i, l in enumerate(net.inputs)}
+        try:
+            rt = rnet.tables([iv[pos[l]] for l in rnet.inputs], 15)
+        except Exception as e:  # noqa: BLE001
+            acc.violation(f'{tname}/result-not-evaluable', case, repr(e)[:200], {'long': True})
+            continue
+        if [rt[o] for o in rnet.outputs] != [ref[o] for o in net.outputs]:
+            acc.violation(f'{tname}/function-changed', case, '', {'long': True})
+        if rnet.size() > net.size():
+            acc.violation(f'{tname}/result-larger', case, '', {'long': True})
+        acc.outcome('shape', (tname, 'long', pat, rnet.size() < net.size()))
+    acc.sample({'long_chain': pat, 'length': L, 'transformer': 'MUO'})
+
+
 def plan(tier):
     t = []
+    for pat in LONG_PATTERNS:
+        for L in (60, 700, 1600) if tier == 'quick' else (60, 700, 1600, 3300, 6000):
+            t.append({'kind': 'long', 'pat': pat, 'L': L})
 
     def fam(n, k, a, split, tnames, pol):
         for tk in space.tasks(n, k, ALPHAS[a], split):
             tk.update(alpha=a, tnames=tnames, pol=pol)
             t.append(tk)
 
+    for tk in space.tasks(2, 2, ALPHAS['SU'], 1):
+        tk.update(alpha='SU', tnames='single', pol='core', kind='checksum')
+        t.append(tk)
     fam(0, 1, 'FULL', 0, 'all', 'all')
     fam(1, 1, 'FULL', 0, 'all', 'all')
     fam(1, 2, 'FULL', 1, 'all', 'all')
@@ -100,7 +193,7 @@ def plan(tier):
 
 def describe(tier):
     return {
-        'rule': 'E1: every circuit of F(n,k,A) (for n+k<=3 and the unary/chain families also with reversed, non-topological storage order) x output policy (none, sequences of <=2 nodes incl. '
+        'rule': 'E3 checksum deviation: F(2,2,symmetric+unary) x core output policies x every single pass with zlib/binascii checksums answering 0 (a pass may bucket by checksum, never conclude equality from it); long: chains of 60..1600 (thorough 6000) gates in five unary/binary patterns through every single pass and two pipes; E1: every circuit of F(n,k,A) (for n+k<=3 and the unary/chain families also with reversed, non-topological storage order) x output policy (none, sequences of <=2 nodes incl. '
         'inputs/repeats, all sinks; "core" = none, each single node, (last,last),(last,x0),(x0,last), sinks) '
         'x transformer (RRG, RRG(allow_inputs_removal), MergeUnary, MergeDuplicate, MergeEquivalent, '
         'cleanup light/heavy, all 25 two-pass pipes a|b). A case = (circuit, outputs, transformer); '
@@ -243,8 +336,19 @@ def _tnames(sel):
 
 
 def run_task(task, acc):
+    if task.get('kind') == 'long':
+        return check_long(acc, task['pat'], task['L'])
     alpha = ALPHAS[task['alpha']]
     tn = _tnames(task['tnames'])
+    if task.get('kind') == 'checksum':
+        with degenerate_checksums():
+            for gates in space.enum_gates(task['n'], task['k'], alpha, space.prefix_from_task(task)):
+                n, k = task['n'], task['k']
+                for outs in core_policies(n, k, gates):
+                    acc.states += 1
+                    for tname in tn:
+                        check_one(n, gates, outs, tname, acc, storage='checksum-collision')
+        return
     scramble = task['tnames'] == 'unary' or task['n'] + task['k'] <= 3
     for gates in space.enum_gates(task['n'], task['k'], alpha, space.prefix_from_task(task)):
         check_circuit(task['n'], gates, acc, tn, task['pol'], scramble)
@@ -253,7 +357,12 @@ def run_task(task, acc):
 def replay(case, acc):
     if 'task' in case:
         return run_task(case['task'], acc)
+    if 'long_chain' in case:
+        return check_long(acc, case['long_chain'], case['length'])
     n, gates, outs = space.spec_from_json(case)
+    if case.get('storage') == 'checksum-collision':
+        with degenerate_checksums():
+            return check_one(n, gates, outs, case['transformer'], acc, storage='checksum-collision')
     if case.get('storage') == 'scrambled':
         c = space.scramble_storage(space.build(n, gates, outs))
         net = space.spec_net(n, gates, outs)
